@@ -128,6 +128,15 @@ class CalculateLCOELCOHLCOC(Contract):
             h["model.economics.annualngcost.value"] = nd
         return h
 
+    @staticmethod
+    def cfg_of(s):
+        """the (concrete) configuration as stored in the state - also valid at call sites of this function"""
+        return {"_econ": s.self.econmodel.value.val, "_enduse": s.model.surfaceplant.enduse_option.value.val,
+                "_plant": s.model.surfaceplant.plant_type.value.val}
+
+    def modifies(self, s):
+        return [(s.self.averageannualpumpingcosts, "value")]
+
     def used_series(self, s, cfg):
         sp = s.model.surfaceplant
         out = [sp.NetkWhProduced.value, sp.HeatkWhProduced.value, sp.PumpingkWh.value]
@@ -141,13 +150,13 @@ class CalculateLCOELCOHLCOC(Contract):
         return out
 
     def requires(self, s):
-        cfg = self._cfg
+        cfg = self.cfg_of(s)
         L = s.model.surfaceplant.plant_lifetime.value
         return {"lifetime": L >= 1,
                 "series_have_one_entry_per_year": And(*[Len(x) == L for x in self.used_series(s, cfg)])}
 
     def ensures(self, s, r):
-        cfg = self._cfg
+        cfg = self.cfg_of(s)
         names = ("LCOE", "LCOH", "LCOC")
         prods = products(s, cfg["_enduse"], cfg["_plant"], cfg["_econ"])
         out = {}
@@ -160,10 +169,3 @@ class CalculateLCOELCOHLCOC(Contract):
         out["costs_and_series_not_modified"] = And(E.CCap.value == o.CCap.value, E.Coam.value == o.Coam.value)
         return out
 
-    def setup(self, ex, st, cfg):
-        self._cfg = cfg
-        super().setup(ex, st, cfg)
-
-    def replay_call(self, ex, st, cfg, inputs, out):
-        self._cfg = cfg
-        return super().replay_call(ex, st, cfg, inputs, out)
